@@ -1121,6 +1121,8 @@ class SymCtx:
 
     def _fact(self, t):
         """Axiom instance: added to the path condition without feasibility check."""
+        if self.model_valid and self._model_says(t) is not True:
+            self.model_valid = False
         self.pc.append(t)
         self.pending.append(t)
 
@@ -1228,7 +1230,18 @@ class SymCtx:
         if r == z3.sat:
             self.claims.append((name, 'sat', dt))
             if self.cex is None:
-                self.cex = (name, self._extract(s.model()))
+                m = s.model()
+                # prefer a counterexample with pairwise distinct, non-zero real inputs: it replays more robustly
+                reals = [c for n_, c in self.inputs.items() if self.input_kinds.get(n_) == 'real']
+                if 1 < len(reals) <= 40:
+                    s.push()
+                    s.set('timeout', 5000)
+                    s.add(z3.Distinct(*reals))
+                    s.add(*[c != 0 for c in reals])
+                    if s.check() == z3.sat:
+                        m = s.model()
+                    s.pop()
+                self.cex = (name, self._extract(m))
             return False
         self.claims.append((name, 'unknown', dt))
         return None
